@@ -91,13 +91,22 @@ pub fn case_seeds(check: &Check, tier: &str, seed: u64, i: u64) -> Vec<(u64, u64
                 .map(|c| (derive(seed, &[tag(check.id), i]), derive(seed, &[tag(check.id), i, c + 1])))
                 .collect()
         }
-        Engine::EProof | Engine::EIo => vec![(derive(seed, &[tag(check.id), i]), 0)],
+        Engine::EProof | Engine::EIo | Engine::ELock | Engine::EConc => vec![(derive(seed, &[tag(check.id), i]), 0)],
     }
 }
 
 /// Run case `i` of a check and return its report (with the trace).
 pub fn run_one(check: &Check, tier: &str, seed: u64, i: u64, scratch: &Path) -> Rep {
     let seeds = case_seeds(check, tier, seed, i);
+    if check.id == "C12" && i % 8 == 7 {
+        // competing changesets committed from several threads (same oracle as C15's chain rule)
+        let (h, _) = seeds[0];
+        let mut rep = Rep::new(h);
+        let dir = scratch.join(format!("cc{i}"));
+        crate::econc::run_case(tier, h, &dir, &mut rep);
+        let _ = std::fs::remove_dir_all(&dir);
+        return rep;
+    }
     match check.engine {
         Engine::EModel => {
             let (h, c) = seeds[0];
@@ -116,6 +125,22 @@ pub fn run_one(check: &Check, tier: &str, seed: u64, i: u64, scratch: &Path) -> 
             let (h, _) = seeds[0];
             let mut rep = Rep::new(h);
             run_proof_case(check.id, h, i, &mut rep, 200);
+            rep
+        }
+        Engine::ELock => {
+            let (h, _) = seeds[0];
+            let mut rep = Rep::new(h);
+            let dir = scratch.join(format!("lk{i}"));
+            crate::elock::run_case(h, &dir, &mut rep);
+            let _ = std::fs::remove_dir_all(&dir);
+            rep
+        }
+        Engine::EConc => {
+            let (h, _) = seeds[0];
+            let mut rep = Rep::new(h);
+            let dir = scratch.join(format!("cc{i}"));
+            crate::econc::run_case(tier, h, &dir, &mut rep);
+            let _ = std::fs::remove_dir_all(&dir);
             rep
         }
         Engine::EIo => {
@@ -277,7 +302,12 @@ fn run_shard(check_id: &str, tier: &str, seed: u64, shard: u64, nshards: u64, sc
             .stderr(Stdio::null())
             .spawn()
             .expect("spawn child");
-        let stall = Duration::from_secs(if tier == "thorough" { 600 } else { 240 });
+        let stall = Duration::from_secs(
+            std::env::var("NV_STALL_S")
+                .ok()
+                .and_then(|s| s.parse().ok())
+                .unwrap_or(if tier == "thorough" { 600 } else { 240 }),
+        );
         let (status, hang) = wait_watch(
             &mut child,
             Duration::from_secs(hard_timeout.saturating_sub(t0.elapsed().as_secs()).max(30)),
